@@ -195,9 +195,13 @@ impl Prop for C18 {
             for (what, g2) in [("as_generated", &ng), ("very_sparse", &sparse)] {
                 let graph2 = if what == "as_generated" { None } else { Some(g2.build()) };
                 let gr = graph2.as_ref().unwrap_or(&graph);
-                for tol in [1e-2, 5e-3, raw_tol] {
+                // (beyond 10 000 nodes one iteration of the library takes a sizeable fraction of a
+                // second: only the two loosest tolerances and 40 iterations there)
+                let tols: Vec<f64> = if n > 10_000 { vec![1e-2, 5e-3] } else { vec![1e-2, 5e-3, raw_tol] };
+                let budget = if n > 10_000 { 40 } else { 100 };
+                for tol in tols {
                     out.api_calls += 1;
-                    match guard(|| eigenvector_centrality(gr, weighted, Some(100), Some(tol))) {
+                    match guard(|| eigenvector_centrality(gr, weighted, Some(budget), Some(tol))) {
                         Err(p) => {
                             out.fail(format!("eigenvector_centrality/panic/{}", panic_class(&p)), p);
                             return out;
